@@ -571,6 +571,51 @@ fn script_has_short(g: Gen, script: &str, s: char) -> bool {
     }
 }
 
+/// Turn one level without subcommands and with >= 2 positionals into `<multi>... <single>`: every positional
+/// required, the second-to-last taking `1..` values without a terminator, the last a plain single value
+/// with declared possible values.
+fn low_index_multiple(spec: &mut CmdSpec, salt: usize) -> bool {
+    fn levels<'a>(c: &'a mut CmdSpec, out: &mut Vec<&'a mut CmdSpec>) {
+        let ok = c.subs.is_empty() && c.args.iter().filter(|a| a.is_positional()).count() >= 2 && !c.has(CmdSetting::AllowMissingPositional);
+        if ok {
+            out.push(c);
+        } else {
+            for s in c.subs.iter_mut() {
+                levels(s, out);
+            }
+        }
+    }
+    let mut ls = Vec::new();
+    levels(spec, &mut ls);
+    if ls.is_empty() {
+        return false;
+    }
+    let k = salt % ls.len();
+    let c = ls.swap_remove(k);
+    let pos: Vec<usize> = c.args.iter().enumerate().filter(|(_, a)| a.is_positional()).map(|(i, _)| i).collect();
+    let n = pos.len();
+    for (j, i) in pos.iter().enumerate() {
+        let a = &mut c.args[*i];
+        a.required = true;
+        a.default_values.clear();
+        a.last = false;
+        a.trailing_var_arg = false;
+        a.value_terminator = None;
+        a.action = Action::Set;
+        a.num_args = if j + 2 == n { Some((1, None)) } else { None };
+        if j + 1 == n {
+            let tag = a.id.trim_start_matches('p').to_string();
+            if !matches!(a.parser, ValParser::Possible(_)) {
+                a.parser = ValParser::Possible(vec![
+                    PvSpec { name: format!("pvl{tag}a"), aliases: vec![], hide: false, help: None },
+                    PvSpec { name: format!("pvl{tag}b"), aliases: vec![], hide: false, help: if salt % 2 == 0 { Some("second".into()) } else { None } },
+                ]);
+            }
+        }
+    }
+    true
+}
+
 fn script_checks(g: Gen, spec: &CmdSpec, script: &str) -> Vec<(&'static str, String, String)> {
     let mut bad: Vec<(&'static str, String, String)> = Vec::new();
     spec.walk(
@@ -605,6 +650,24 @@ fn script_checks(g: Gen, spec: &CmdSpec, script: &str) -> Vec<(&'static str, Str
                                 let (min, _) = a.value_range();
                                 let site = if g == Gen::Zsh && min == 0 { "zsh/possible-value-optional-value".to_string() } else { format!("{}/possible-value", g.name()) };
                                 bad.push(("coverage-missing", site, format!("possible value {} of {} (`{}`) is not mentioned in the {} script", p.name, a.id, c.name, g.name())));
+                            }
+                        }
+                    }
+                }
+            }
+            // possible values of positionals: bash lists them among the words of the level; zsh writes a
+            // value spec for every positional except a multi-valued or `last` one that follows a catch-all,
+            // so a plain single-valued positional is always covered
+            if matches!(g, Gen::Bash | Gen::Zsh) {
+                for a in c.args.iter().filter(|a| !a.hide && a.is_positional() && !a.hide_possible_values) {
+                    let single = matches!(a.action, Action::Set) && !a.last && matches!(a.value_range(), (_, Some(m)) if m <= 1);
+                    if g == Gen::Zsh && !single {
+                        continue;
+                    }
+                    if let ValParser::Possible(pvs) = &a.parser {
+                        for p in pvs.iter().filter(|p| !p.hide) {
+                            if !contains_token(script, &p.name) {
+                                bad.push(("coverage-missing", format!("{}/positional-possible-value", g.name()), format!("possible value {} of the positional {} (`{}`) is not mentioned in the {} script", p.name, a.id, c.name, g.name())));
                             }
                         }
                     }
@@ -991,7 +1054,7 @@ impl Engine for SinkSim {
             Which::C16 => Meta {
                 engine: "sinksim",
                 level: "fault_enumeration",
-                rule: "a scenario is a command tree (depth <= 3, hyphenated/underscored/non-ASCII names, aliases, hidden items, value hints, possible values, adversarial text) x one of the six ahead-of-time generators x a sink fault plan (short writes, EINTR, chunk caps 1..4096, Ok(0), WouldBlock, BrokenPipe, StorageFull at a byte offset, flush error) x a command history (fresh, cloned, pre-built, previously parsed). For scripts with <= 400 write calls and the `enumerate` flag, EVERY write-call index is additionally faulted once with EINTR, a 1-byte short write and a hard error. Bash scenarios also source the delivered script in a controlled `bash --noprofile --norc` process (cleared environment) and issue completion queries (word path + partial word). Non-trivial = >= 1 sink fault fired or >= 1 bash query answered; distinct = distinct scenario hash. Added during the build phase: generate_to on a real scratch directory (missing / file / pre-existing, another binary name), level-scoped coverage for every shell, conflicts, required options",
+                rule: "a scenario is a command tree (depth <= 3, hyphenated/underscored/non-ASCII names, aliases, hidden items, value hints, possible values, adversarial text) x one of the six ahead-of-time generators x a sink fault plan (short writes, EINTR, chunk caps 1..4096, Ok(0), WouldBlock, BrokenPipe, StorageFull at a byte offset, flush error) x a command history (fresh, cloned, pre-built, previously parsed). For scripts with <= 400 write calls and the `enumerate` flag, EVERY write-call index is additionally faulted once with EINTR, a 1-byte short write and a hard error. Bash scenarios also source the delivered script in a controlled `bash --noprofile --norc` process (cleared environment) and issue completion queries (word path + partial word). Non-trivial = >= 1 sink fault fired or >= 1 bash query answered; distinct = distinct scenario hash. Added during the build phase: generate_to on a real scratch directory (missing / file / pre-existing, another binary name), level-scoped coverage for every shell, conflicts, required options, possible values of positionals (bash, zsh), low-index multiple positionals without a terminator",
                 real_components: &["clap_complete::aot::generate + the five shell generators", "clap_complete_nushell::Nushell", "Command::build / set_bin_name", "GNU bash 5.2 (bash -n and execution of the generated function)"],
                 stub_components: &["FaultyWriter (the &mut dyn Write sink)", "COMP_WORDS/COMP_CWORD set by the harness instead of readline"],
                 workload_only_clauses: &["coverage of options/values/subcommands is a function of the tree: checked on the bytes the sink delivered, but the sink is not what it depends on", "only bash is installed: the other five scripts are checked as text, not executed"],
@@ -1041,6 +1104,16 @@ impl Engine for SinkSim {
         }
         if self.0 == Which::C16 {
             spec.name = (*rng.pick(&["prog", "my-app", "my_app"])).to_string();
+            // the tree generator only builds a low-index multiple positional with a value terminator; the
+            // generators treat the terminator-less shape differently (zsh: a catch-all after which only
+            // single-valued positionals are still written), so some trees get that shape here
+            if rng.chance(1, 6) {
+                let salt = rng.below(1 << 16) as usize;
+                let mut t = spec.clone();
+                if low_index_multiple(&mut t, salt) && gate(&t).is_ok() {
+                    spec = t;
+                }
+            }
         }
         if self.0 == Which::C19 && rng.chance(1, 3) {
             hostile_control_slots(rng, &mut spec);
